@@ -9,6 +9,40 @@ from .stages import stage
 
 ACTIONS = ["ChildInit", "LoopCheck", "Begin", "Iter", "GenGsc", "Lsc", "LocalRun", "PostGsc", "Sprout"]
 
+# Non-vacuity witnesses (HMSModel.tla W_*): each names a state some clause needs as its antecedent; TLC must find the
+# invariant VIOLATED (= the state is reachable in the bounded model).  One short breadth-first run each.
+WITNESSES = {
+    "W_BudgetNeverRefuses": "an evaluation budget runs out (C03_BudgetHard / C03_TotalEqualsCalls antecedent)",
+    "W_BudgetNeverCutsABatch": "a budget ends inside a batch of evaluations",
+    "W_NoGscWithDemesQueued": "the global condition first observed true by a deme while other demes are still queued (C05 wind-down)",
+    "W_NoGscAtLoopHeadFirst": "the global condition true at the very first loop-head consult (zero metaepochs)",
+    "W_LevelNeverFull": "a level reaches its limit (C08)",
+    "W_NoSlotRefilled": "a level has held more demes over time than its limit: a slot was freed and refilled (C08)",
+    "W_NobodyHibernates": "a deme hibernates (C18)",
+    "W_NobodyWakes": "a hibernating deme is woken by a later round (C18)",
+    "W_NoSelfStop": "CMA-ES stops by its own criterion (C06_StopCauses)",
+    "W_NoThirdLevelDeme": "a deme exists on the third level (C18 intermediate demes)",
+    "W_NoWindDown": "a deme performs an engine iteration after the global condition was first observed true (C05)",
+    "W_NoJustFinishedOffer": "NBCGeneratorWithLocalMethod: a just-finished deme hands its best to a local search (C10)",
+    "Inv_G_SinceSproutRawNonNegAlways": "with hibernation the raw distance to the last sprout goes negative (growth: why the clamp of fix 7ee42ca is needed)",
+}
+
+
+def _witnesses(d: Path) -> dict:
+    from concurrent.futures import ThreadPoolExecutor
+    base = (Path(__file__).resolve().parent.parent / "spec" / "HMS_witness.cfg").read_text()
+
+    def one(name):
+        cfgp = d / f"witness_{name}.cfg"
+        cfgp.write_text(base.replace("Inv_C18_NoIdleMetaepoch", name))
+        w = run_tlc("MC_HMS", str(cfgp), d / f"w_{name}", workers=2, timeout=900, heap="2g")
+        if not w.ok and not w.violated:
+            raise MachineryError(f"witness run {name} failed:\n" + "\n".join(w.out.splitlines()[-15:]))
+        steps = len(re.findall(r"^State \d+:", w.out, re.M))
+        return name, {"reachable": name in w.violated, "states_to_witness": steps, "distinct_explored": w.distinct}
+    with ThreadPoolExecutor(max_workers=6) as ex:
+        return dict(ex.map(one, WITNESSES))
+
 
 def model_stage(tier: str) -> dict:
     def build(d: Path) -> dict:
@@ -26,7 +60,10 @@ def model_stage(tier: str) -> dict:
             m = re.search(r"Error: The behavior up to this point is:(.*)", w.out, re.S)
             steps = len(re.findall(r"^State \d+:", w.out, re.M))
             trace = f"{steps} states to the idle metaepoch"
-        return {"cfg": cfg, "generated": r.generated, "distinct": r.distinct, "depth": r.depth,
+        wit = _witnesses(d)
+        unreachable = [f"model witness not reachable: {n} ({WITNESSES[n]})" for n, v in wit.items() if not v["reachable"]]
+        return {"witnesses": wit, "unreachable_witnesses": unreachable,
+                "cfg": cfg, "generated": r.generated, "distinct": r.distinct, "depth": r.depth,
                 "violated": r.violated, "tail": r.out[-2500:] if r.violated else "",
                 "action_coverage": cov, "untaken_actions": untaken, "wall_s": round(r.wall_s, 1),
                 "stall_witness_reachable": witness, "stall_witness": trace}
